@@ -325,21 +325,20 @@ def execute(case):
     lay = []
     copies = [case] + ([second_case(case)] if case.get("second") else [])
     for which, cs in enumerate(copies):
-      env = cs["env"]
-      for i, side in enumerate(cs["sides"]):
-        tb, steps = runtime_layout(cs, side)
-        lay.append((cs, tb, steps))
-        shape = shape_of(tb)
-        fp = m.src_fp if i == 0 else m.dst_fp
-        for idx in all_indices(shape):
-            a = env["base"][i] + address(idx, tb, steps, side["off"]) * eb
-            for j in range(eb):
-                if (a + j) in fp:
-                    raise RuntimeError("generator produced a self-overlapping layout")
-                fp.add(a + j)
-                m.mem[a + j] = ("src", which, idx, j) if i == 0 else ("poison",)
-        dstr = [steps[d][-1] for d in range(len(tb))]
-        descs.append(Desc(env["base"][i], side["off"] if side["kind"] == "strided" else 0, shape, dstr, eb))
+        for i, side in enumerate(cs["sides"]):
+            tb, steps = runtime_layout(cs, side)
+            lay.append((cs, tb, steps))
+            shape = shape_of(tb)
+            fp = m.src_fp if i == 0 else m.dst_fp
+            for idx in all_indices(shape):
+                a = cs["env"]["base"][i] + address(idx, tb, steps, side["off"]) * eb
+                for j in range(eb):
+                    if (a + j) in fp:
+                        raise RuntimeError("generator produced a self-overlapping layout")
+                    fp.add(a + j)
+                    m.mem[a + j] = ("src", which, idx, j) if i == 0 else ("poison",)
+            dstr = [steps[d][-1] for d in range(len(tb))]
+            descs.append(Desc(cs["env"]["base"][i], side["off"] if side["kind"] == "strided" else 0, shape, dstr, eb))
     env = case["env"]
     if m.src_fp & m.dst_fp:
         raise RuntimeError("footprints overlap")
